@@ -17,6 +17,7 @@ type Comp struct {
 	Suffix string
 	Sort   *Sort
 	T      types.Type // Go type of a leaf integer/bool component (for ranges), else nil
+	Iface  bool       // an interface handle: boxed values have negative handles
 }
 
 type PtrKind int
@@ -72,39 +73,41 @@ func Flatten(t types.Type) []Comp {
 	case *types.Basic:
 		switch {
 		case u.Info()&types.IsBoolean != 0:
-			out = []Comp{{"", SBool, t}}
+			out = []Comp{{"", SBool, t, false}}
 		case u.Info()&types.IsInteger != 0:
-			out = []Comp{{"", SInt, t}}
+			out = []Comp{{"", SInt, t, false}}
 		case u.Info()&types.IsString != 0:
-			out = []Comp{{".arr", sArrII, nil}, {".off", SInt, nil}, {".len", SInt, nil}}
+			out = []Comp{{".arr", sArrII, nil, false}, {".off", SInt, nil, false}, {".len", SInt, nil, false}}
 		case u.Kind() == types.UnsafePointer || u.Kind() == types.UntypedNil:
-			out = []Comp{{"", SInt, nil}}
+			out = []Comp{{"", SInt, nil, false}}
 		case u.Info()&types.IsFloat != 0:
-			out = []Comp{{"", SInt, nil}} // opaque
+			out = []Comp{{"", SInt, nil, false}} // opaque
 		default:
 			panic("Flatten: unsupported basic type " + t.String())
 		}
-	case *types.Pointer, *types.Interface, *types.Chan, *types.Map, *types.Signature:
-		out = []Comp{{"", SInt, nil}}
+	case *types.Interface:
+		out = []Comp{{"", SInt, nil, true}}
+	case *types.Pointer, *types.Chan, *types.Map, *types.Signature:
+		out = []Comp{{"", SInt, nil, false}}
 	case *types.Slice:
-		out = []Comp{{".ref", SInt, nil}, {".off", SInt, nil}, {".len", SInt, nil}, {".cap", SInt, nil}}
+		out = []Comp{{".ref", SInt, nil, false}, {".off", SInt, nil, false}, {".len", SInt, nil, false}, {".cap", SInt, nil, false}}
 	case *types.Struct:
 		for i := 0; i < u.NumFields(); i++ {
 			f := u.Field(i)
 			for _, c := range Flatten(f.Type()) {
-				out = append(out, Comp{"." + f.Name() + c.Suffix, c.Sort, c.T})
+				out = append(out, Comp{"." + f.Name() + c.Suffix, c.Sort, c.T, c.Iface})
 			}
 		}
 	case *types.Tuple:
 		for i := 0; i < u.Len(); i++ {
 			for _, c := range Flatten(u.At(i).Type()) {
-				out = append(out, Comp{fmt.Sprintf(".%d%s", i, c.Suffix), c.Sort, c.T})
+				out = append(out, Comp{fmt.Sprintf(".%d%s", i, c.Suffix), c.Sort, c.T, c.Iface})
 			}
 		}
 	case *types.Array:
 		// arrays live behind references only; as a value: one content array per element component
 		for _, c := range Flatten(u.Elem()) {
-			out = append(out, Comp{".elems" + c.Suffix, SArr(c.Sort), nil})
+			out = append(out, Comp{".elems" + c.Suffix, SArr(c.Sort), nil, false})
 		}
 	default:
 		panic("Flatten: unsupported type " + t.String())
@@ -200,7 +203,9 @@ func RangeFact(x *Term, t types.Type) *Term {
 	return And(Le(NumB(lo), x), Le(x, NumB(hi)))
 }
 
-const maxLen = int64(1) << 62
+// No slice, string or channel buffer holds more than 2^48 elements (the address space of the supported
+// platforms is smaller); sums of a few lengths therefore do not overflow int. Listed as an assumption.
+const maxLen = int64(1) << 48
 
 // WFValue: type invariants of a freshly introduced symbolic value.
 func WFValue(v Value) *Term {
@@ -216,13 +221,15 @@ func WFValue(v Value) *Term {
 		case strings.HasSuffix(c.Suffix, ".len") && i+1 < len(comps) && strings.HasSuffix(comps[i+1].Suffix, ".cap"):
 			// slice: ref, off, len, cap
 			ref, off, ln, cp := v.C[i-2], v.C[i-1], v.C[i], v.C[i+1]
-			fs = append(fs, Le(Num(0), ref), Le(Num(0), off), Le(Num(0), ln), Le(ln, cp), Le(cp, Num(maxLen)), Le(off, Num(maxLen)),
+			fs = append(fs, Le(Num(0), ref), Le(Num(0), off), Le(Num(0), ln), Le(ln, cp), Le(ln, Num(maxLen)), Le(Num(0), cp), Le(cp, Num(maxLen)), Le(off, Num(maxLen)),
 				Implies(Eq(ref, Num(0)), Eq(cp, Num(0))))
 		case strings.HasSuffix(c.Suffix, ".len") && i >= 2 && strings.HasSuffix(comps[i-1].Suffix, ".off") && strings.HasSuffix(comps[i-2].Suffix, ".arr"):
 			fs = append(fs, Le(Num(0), v.C[i-1]), Le(Num(0), v.C[i]), Le(v.C[i], Num(maxLen)), Le(v.C[i-1], Num(maxLen)))
 		case c.T == nil && c.Sort == SInt && c.Suffix != ".off" && !strings.HasSuffix(c.Suffix, ".off") && !strings.HasSuffix(c.Suffix, ".cap") && !strings.HasSuffix(c.Suffix, ".len"):
-			// handles and refs are non-negative
-			fs = append(fs, Le(Num(0), v.C[i]))
+			// refs are non-negative (interface handles of boxed values are negative)
+			if !c.Iface {
+				fs = append(fs, Le(Num(0), v.C[i]))
+			}
 		}
 	}
 	return And(fs...)
